@@ -421,7 +421,7 @@ def fresh_construct(obj, changes):
     return type(obj)(**kw)
 
 
-def execute(sc, stats=None, upto=None):
+def execute(sc, stats=None, upto=None, trace=None):
     """Run a scenario. Returns (violation dict or None)."""
     stats = stats if stats is not None else {}
 
@@ -490,6 +490,8 @@ def execute(sc, stats=None, upto=None):
                    'failed': type(failed).__name__ if failed is not None else None,
                    'abort_site': list(itr.site) if itr is not None and itr.site else None,
                    'perms_observed': [list(p) for _n, p in policy.observed]}
+        if trace is not None:
+            trace.append((step, name, op_desc['receiver'], op_desc['failed'], op_desc['abort_site'], op_desc['perms_observed']))
         # --- expected effect of the one legal mutation
         if note == 'user_mutation' and failed is None:
             key = id(h.obj)
@@ -568,6 +570,30 @@ def _viol(cls, detail, op_desc, sc, step):
 ###############################################################################
 
 
+def prep():
+    """Deterministic template state: every run is forked off a process that has done exactly this."""
+    for k in ('expression', 'condition', 'property', 'specification'):
+        build.parser(k)
+    import hpl.rewrite  # noqa: F401  (typeguard instruments it at import time: ~0.5 s, once, in the template)
+    import hpl.types  # noqa: F401
+    import hpl.ast.predicates  # noqa: F401
+    make_schema()
+
+
+def one_run(seed, cfg):
+    sc = gen_scenario(seed, cfg)
+    local = {}
+    tr = []
+    v = execute(sc, local, trace=tr)
+    return {'v': v, 'stats': local, 'digest_gen': sc['digest_gen'], 'digest_exec': core.derive(repr(tr)),
+            'sample': {'seed': seed, 'sources': sc['sources'],
+                       'ops': [{k: o[k] for k in ('h', 'h2', 'sel', 'opsel', 'dt', 'abort', 'order') if k in o} for o in sc['ops'][:4]]}}
+
+
+def isolated_execute(sc):
+    return core.run_isolated(execute, sc, {})
+
+
 def worker(job):
     cfg = job['cfg']
     stats = {}
@@ -576,23 +602,23 @@ def worker(job):
     samples = []
     shapes = set()
     t0 = time.monotonic()
+    prep()
     for idx in job['indices']:
         if time.monotonic() - t0 > job['wall']:
             stats['runs_skipped_for_time'] = stats.get('runs_skipped_for_time', 0) + 1
             continue
         seed = core.derive(job['master'], PROP, idx)
-        sc = gen_scenario(seed, cfg)
-        local = {}
-        v = execute(sc, local)
+        r = core.run_isolated(one_run, seed, cfg)
+        local = r['stats']
         core.merge_counts(stats, local)
         stats['runs'] = stats.get('runs', 0) + 1
-        digests.append((idx, sc['digest_gen']))
+        digests.append((idx, r['digest_gen'], r['digest_exec']))
         for k in local:
             if k.startswith('op_'):
                 shapes.add(k)
         if len(samples) < 1:
-            samples.append({'run_index': idx, 'seed': seed, 'sources': sc['sources'],
-                            'ops': [{k: o[k] for k in ('h', 'h2', 'sel', 'opsel', 'dt', 'abort', 'order') if k in o} for o in sc['ops'][:4]]})
+            samples.append(dict(r['sample'], run_index=idx))
+        v = r['v']
         if v is not None:
             v['run_index'] = idx
             v['seed'] = seed
@@ -617,7 +643,7 @@ def minimise(sc, v, budget=160):
         trial = dict(sc)
         trial['ops'] = sub
         try:
-            r = execute(trial, {})
+            r = isolated_execute(trial)
         except Exception:
             return False
         return r is not None and r['class'] == cls
@@ -635,7 +661,7 @@ def minimise(sc, v, budget=160):
     # fewer sources
     trial = dict(sc)
     trial['ops'] = small
-    r = execute(trial, {})
+    r = isolated_execute(trial)
     return trial, r
 
 
@@ -648,7 +674,8 @@ def make_replay(sc, v):
 
 def replay(doc):
     sc = {'sources': doc['sources'], 'ops': doc['ops']}
-    return execute(sc, {})
+    prep()
+    return isolated_execute(sc)
 
 
 def signature(v):
@@ -694,8 +721,8 @@ def main(argv):
         digests.extend(r['digests'])
         shapes.update(r['shapes'])
     if args.digests:
-        for idx, d in sorted(digests):
-            print('DIGEST %d %s' % (idx, d))
+        for idx, d, e in sorted(digests):
+            print('DIGEST %d %s %x' % (idx, d, e))
 
     known = core.load_known_findings(PROP)
     new, known_hits, harness_errors = [], [], []
@@ -706,6 +733,7 @@ def main(argv):
     limit = int(os.environ.get('HPLSIM_REPORT_MAX', '2'))
     for sig, vs in sorted(by_sig.items()):
         for v in vs[:limit]:
+            prep()
             sc = gen_scenario(v['seed'], cfg)
             msc, mv = minimise(sc, v)
             if mv is None:
